@@ -26,6 +26,9 @@ pub struct Oracles {
     pub immutable: bool,
     /// results of built-in operations are tracked iff an operand was
     pub result_tracking: bool,
+    /// derivative closures of custom operations: invoked exactly once per pass for every reachable node, after
+    /// all consumers, with the complete adjoint; never for unreachable nodes
+    pub custom_log: bool,
 }
 
 #[derive(Clone, Debug)]
@@ -47,6 +50,8 @@ pub struct HStats {
     pub broadcast_and_sharing: bool,
     pub flags_compared: usize,
     pub snapshots_compared: usize,
+    pub log_entries_checked: usize,
+    pub logged_shared_node: bool,
 }
 
 pub enum HOutcome {
@@ -71,6 +76,9 @@ pub struct Interp {
     pub or: Oracles,
     snaps: Vec<Option<Snapshot>>,
     pub stats: HStats,
+    /// custom operation id -> model node
+    pub custom_nodes: Vec<usize>,
+    log_seen: usize,
 }
 
 fn op_at(s: &Step) -> String {
@@ -84,7 +92,7 @@ fn op_at(s: &Step) -> String {
 
 impl Interp {
     pub fn new(or: Oracles, dir_budget: usize) -> Interp {
-        Interp { m: RefState::new(dir_budget), ex: Exec::new(), or, snaps: vec![], stats: HStats { exact: true, ..Default::default() } }
+        Interp { m: RefState::new(dir_budget), ex: Exec::new(), or, snaps: vec![], stats: HStats { exact: true, ..Default::default() }, custom_nodes: vec![], log_seen: 0 }
     }
 
     fn sync_snaps(&mut self) {
@@ -145,6 +153,11 @@ impl Interp {
             self.path_stats(root);
         }
         let handles_before = self.m.handles.len();
+        let customs_before = self.ex.n_custom;
+        let effects = match s {
+            Step::Backward { h, seed } if self.or.custom_log => Some(self.m.pass_effects(*h, seed.as_deref())),
+            _ => None,
+        };
         let mut nodes_before = vec![];
         if let Step::Update { params, .. } = s {
             for p in params {
@@ -182,6 +195,18 @@ impl Interp {
                     return Err(fail("missing-gradient", "read-gradient".into(), format!("step {}: handle {} holds no gradient", idx, h), &self.stats));
                 }
                 self.m.handles[mslot] = None;
+            }
+        }
+        if self.ex.n_custom > customs_before {
+            // the custom operation just applied produced the newest model node
+            if self.ex.n_custom != customs_before + 1 {
+                return Err(HOutcome::Internal("more than one custom operation in one step".into()));
+            }
+            self.custom_nodes.push(self.m.nodes.len() - 1);
+        }
+        if let Some(eff) = effects {
+            if let Err(o) = self.check_log(idx, s, &eff) {
+                return Err(o);
             }
         }
         if self.m.handles.len() != self.ex.slots.len() {
@@ -292,6 +317,67 @@ impl Interp {
                         ));
                     }
                 }
+            }
+        }
+        Ok(())
+    }
+
+    /// the derivative-invocation log of this pass against the reference
+    fn check_log(&mut self, idx: usize, s: &Step, eff: &[PassEffect]) -> Result<(), HOutcome> {
+        let log: Vec<LogEntry> = self.ex.log.borrow()[self.log_seen..].to_vec();
+        self.log_seen += log.len();
+        let mk = |kind: &str, detail: String, st: &HStats| HOutcome::Fail(HFail { kind: kind.to_string(), at: "custom-op".into(), detail }, st.clone());
+        let in_reach: std::collections::HashMap<usize, &PassEffect> = eff.iter().map(|e| (e.node, e)).collect();
+        let mut pos: std::collections::HashMap<usize, usize> = std::collections::HashMap::new();
+        let ids = |l: &[LogEntry]| l.iter().map(|e| e.custom_id).collect::<Vec<_>>();
+        for (i, e) in log.iter().enumerate() {
+            let Some(&node) = self.custom_nodes.get(e.custom_id) else { return Err(HOutcome::Internal(format!("log entry for unknown custom op {}", e.custom_id))) };
+            if pos.insert(node, i).is_some() {
+                return Err(mk("invoked-twice", format!("step {} ({}): the derivative of custom operation #{} (model node {}) was invoked more than once in one pass; invocation order {:?}", idx, step_describe(s, &self.m), e.custom_id, node, ids(&log)), &self.stats));
+            }
+            let Some(pe) = in_reach.get(&node) else {
+                return Err(mk("invoked-unreachable", format!("step {} ({}): the derivative of custom operation #{} was invoked although its node is not reachable from the root through tracked operands; invocation order {:?}", idx, step_describe(s, &self.m), e.custom_id, ids(&log)), &self.stats));
+            };
+            if let Some((v, m)) = &pe.contrib {
+                let nd = &self.m.nodes[node];
+                self.stats.log_entries_checked += 1;
+                let exact = self.stats.exact && m.iter().all(|x| x.abs() < 1e15) && v.iter().all(|x| x.abs() < 1e15);
+                let bad = e.delta_dims != nd.t.dims || e.delta.len() != v.len() || e.delta.iter().zip(v.iter().zip(m)).any(|(g, (w, mm))| if exact { g != w } else { !close(*g, *w, *mm, false) });
+                if bad {
+                    return Err(mk(
+                        "incomplete-adjoint",
+                        format!("step {} ({}): the derivative of custom operation #{} ({:?}, dims {:?}) received delta dims {:?} values {:?}, expected the complete adjoint {:?}; invocation order {:?}", idx, step_describe(s, &self.m), e.custom_id, nd.op, nd.t.dims, e.delta_dims, e.delta, v, ids(&log)),
+                        &self.stats,
+                    ));
+                }
+            }
+        }
+        // every reachable custom node with a graph was invoked, and after all of its (custom) consumers
+        for (cid, &node) in self.custom_nodes.iter().enumerate() {
+            let nd = &self.m.nodes[node];
+            if !nd.has_graph() {
+                continue;
+            }
+            match (in_reach.contains_key(&node), pos.get(&node)) {
+                (true, None) => {
+                    return Err(mk("not-invoked", format!("step {} ({}): custom operation #{} is reachable from the root but its derivative was not invoked; invocation order {:?}", idx, step_describe(s, &self.m), cid, ids(&log)), &self.stats));
+                }
+                (true, Some(&p)) => {
+                    let mut consumers = 0;
+                    for (&other, &q) in pos.iter() {
+                        let consumes = self.m.nodes[other].edges.iter().filter(|e| e.0 == node && e.1).count();
+                        if consumes > 0 && in_reach.contains_key(&other) {
+                            consumers += consumes;
+                            if q > p {
+                                return Err(mk("invoked-before-consumer", format!("step {} ({}): custom operation #{} was differentiated before its consumer (model node {}) had contributed; invocation order {:?}", idx, step_describe(s, &self.m), cid, other, ids(&log)), &self.stats));
+                            }
+                        }
+                    }
+                    if consumers >= 2 {
+                        self.stats.logged_shared_node = true;
+                    }
+                }
+                _ => {}
             }
         }
         Ok(())
